@@ -23,6 +23,7 @@ import (
 
 	libshare "github.com/celestiaorg/go-square/v4/share"
 
+	"github.com/celestiaorg/celestia-node/share"
 	"github.com/celestiaorg/celestia-node/share/shwap"
 	"github.com/celestiaorg/celestia-node/share/shwap/p2p/shrex"
 	shrexpb "github.com/celestiaorg/celestia-node/share/shwap/p2p/shrex/pb"
@@ -561,11 +562,14 @@ func (d *driver) setup() {
 		t.Fatalf("mocknet: %v", err)
 	}
 	d.client, d.server = mn.Hosts()[0], mn.Hosts()[1]
-	d.st, err = store.NewStore(store.DefaultParameters(), t.TempDir())
+	dir := t.TempDir()
+	// blocks are written through one store instance and served by a second one opened on the same
+	// directory: a store keeps freshly put squares in an in-memory cache, and the point is to serve
+	// from the files
+	writer, err := store.NewStore(store.DefaultParameters(), dir)
 	if err != nil {
 		t.Fatalf("store: %v", err)
 	}
-	t.Cleanup(func() { _ = d.st.Stop(context.Background()) })
 	widths := []int{1, 2, 4}
 	if vh.Thorough() {
 		widths = append(widths, 8)
@@ -585,17 +589,39 @@ func (d *driver) setup() {
 				layout = shx.UniformLayout(w)
 			}
 			ref := shx.Build(t, d.rng, w, h, layout)
-			if err := d.st.PutODSQ4(context.Background(), ref.Roots, h, ref.EDS); err != nil {
+			if err := writer.PutODSQ4(context.Background(), ref.Roots, h, ref.EDS); err != nil {
 				t.Fatalf("put: %v", err)
 			}
 			d.refs = append(d.refs, ref)
 		}
 	}
+	// two more ways a block can be stored: original data square only (no parity quadrant file), and the
+	// empty block (linked to the store's built-in empty file)
+	odsOnly := shx.Build(t, d.rng, 2, 101, shx.Layout(d.rng, 2, 3, 0))
+	if err := writer.PutODS(context.Background(), odsOnly.Roots, odsOnly.Height, odsOnly.EDS); err != nil {
+		t.Fatalf("put ods: %v", err)
+	}
+	empty := shx.Build(t, d.rng, 1, 102, []int{-1})
+	if !share.DataHash(empty.Roots.Hash()).IsEmptyEDS() {
+		t.Fatalf("the one-tail-padding-share square is not the empty block")
+	}
+	if err := writer.PutODSQ4(context.Background(), empty.Roots, empty.Height, empty.EDS); err != nil {
+		t.Fatalf("put empty: %v", err)
+	}
+	if err := writer.Stop(context.Background()); err != nil {
+		t.Fatalf("stop writer store: %v", err)
+	}
+	d.st, err = store.NewStore(store.DefaultParameters(), dir)
+	if err != nil {
+		t.Fatalf("reopen store: %v", err)
+	}
+	t.Cleanup(func() { _ = d.st.Stop(context.Background()) })
 	// d.refs: [w1 mixed, w2 mixed, w4 mixed, (w8), w1 uniform, w2 uniform, w4 uniform, (w8)] -- keep the
 	// indices used by materialise stable
 	if vh.Thorough() {
 		d.refs = []*shx.Ref{d.refs[0], d.refs[1], d.refs[2], d.refs[4], d.refs[5], d.refs[6], d.refs[3], d.refs[7]}
 	}
+	d.refs = append(d.refs, odsOnly, empty)
 	d.m = &monitor{}
 	sp := shrex.DefaultServerParameters()
 	sp.WithNetworkID(networkID)
